@@ -91,7 +91,7 @@ SubstN(n, idm, stm) ==
     IF n.id \in DOMAIN idm
     THEN IF idm[n.id] = Del THEN <<>> ELSE <<idm[n.id]>>
     ELSE LET sr == StructRepl(n, stm)
-         IN IF sr[1] THEN <<sr[2]>>
+         IN IF sr[1] THEN (IF sr[2] = Del THEN <<>> ELSE <<sr[2]>>)
             ELSE IF IsLeaf(n) THEN <<n>>
             ELSE LET k2 == SubstF(n.k, idm, stm)
                  IN IF k2 = n.k THEN <<n>>          \* untouched: same node
